@@ -329,6 +329,34 @@ def t_alpha():
     check(alpha("not python (") == "not python (", "unparsable text unchanged")
 
 
+def t_poly():
+    from .rules.common import poly_eval, poly_subst
+    fn = _fn('''
+    def f(self, X):
+        e = self._params["embedding"]
+        t = self._params["tau"]
+        cut = (e - 1) * t
+        keep = X.size - cut
+        other = X.size - e * t + t
+        wrong = X.size - e * t + 1
+        return keep, other, wrong
+    ''')
+    ff = FuncFacts.of(fn)
+    ret = [s for s in ff.statements() if isinstance(s, ast.Return)][0]
+
+    def sym(x):
+        t = ast.unparse(x)
+        return {"self._params['embedding']": "e", "self._params['tau']": "t", "X.size": "N"}.get(t)
+
+    at = ff.node_of(ret)
+    P = [poly_eval(ff, x, at, sym) for x in ret.value.elts]
+    check(P[0] == {("N",): 1, ("e", "t"): -1, ("t",): 1}, f"N - (e-1)*t in normal form ({P[0]})")
+    check(P[0] == P[1], "two spellings of one polynomial have one normal form")
+    check(P[2] != P[0] and poly_subst(P[2], "e", 1) == {("N",): 1, ("t",): -1, (): 1}, "substitution e=1 in the wrong count leaves N - t + 1")
+    check(poly_subst(P[0], "e", 1) == {("N",): 1}, "substitution e=1 in the right count leaves N")
+    check(poly_eval(ff, ast.parse("X.size / 2").body[0].value, at, sym) is None, "division is not a polynomial: None")
+
+
 def main():
     t_cfg_dominators()
     t_reaching_defs()
@@ -341,6 +369,7 @@ def main():
     t_follow(repo)
     t_getattr_dispatch(repo)
     t_alpha()
+    t_poly()
     if FAILS:
         print(f"{len(FAILS)} engine test(s) failed")
         return 2
